@@ -118,6 +118,9 @@ func c15Jobs(tier string) []c15Job {
 	return jobs
 }
 
+type defB bool
+type defI16 int16
+
 // NestedStruct exercises nested arrays and structs in TypeEncoder.
 type NestedStruct struct {
 	A [2]uint16
@@ -507,6 +510,24 @@ func runC15(ctx *Ctx, idx int) {
 			case 5:
 				v, rf = uint16(x), put(2)
 			}
+			// defined (named) scalar and array types every third time
+			if i%3 == 2 {
+				switch i / 2 % 6 {
+				case 0:
+					v, rf = defB(x&1 == 1), []byte{byte(x & 1)}
+				case 1:
+					v, rf = defI16(x), put(2)
+				case 2:
+					v, rf = defU32(x), put(4)
+				case 3:
+					v, rf = defOff(x), put(8)
+				case 4:
+					v = defArr{uint16(x), uint16(x >> 16)}
+				case 5:
+					v, rf = defU16(x), put(2)
+				}
+				ctx.Count("values:defined_types", 1)
+			}
 			e, err := encode.NewTypeEncoderEndian(v, order)
 			if err != nil {
 				fail("TypeEncoder(prim)", "constructor-error", v, map[string]interface{}{"error": err.Error()})
@@ -544,7 +565,7 @@ func init() {
 			if tier == "thorough" && (m.C("exhaustive32:i32") != 1<<32 || m.C("exhaustive32:u32") != 1<<32) {
 				missed = append(missed, "32-bit exhaustive")
 			}
-			for _, g := range []string{"values:i32", "values:u32", "values:i64", "values:u64", "values:int", "values:str16", "values:bytes", "values:struct", "values:prim", "values:dummy", "random_struct_types", "random_types:array_of_padded_structs", "str16:lenclass_16", "str16:lenclass_0", "bytes:sizeclass_0", "bytes:sizeclass_13"} {
+			for _, g := range []string{"values:i32", "values:u32", "values:i64", "values:u64", "values:int", "values:str16", "values:bytes", "values:struct", "values:prim", "values:dummy", "values:defined_types", "random_struct_types", "random_types:array_of_padded_structs", "str16:lenclass_16", "str16:lenclass_0", "bytes:sizeclass_0", "bytes:sizeclass_13"} {
 				if m.C(g) == 0 {
 					missed = append(missed, g)
 				}
